@@ -30,10 +30,33 @@ PROPS = {
     ),
 }
 
+PROPS["C11"] = dict(
+    family="fmt",
+    theorems=[],
+    rule="cross product alignment {none,<,>} x pad {none, _*, 0, 0 then _*, _* then 0, _0} x width {0, |r|-1, |r|, |r|+1, |r|+2, 40, 70} x '#' x '+' x class "
+         "{default,d,x,X,o,b,c} x &N x 4 item orders over boundary values (0, +-1, min+1, max, digit-count boundaries of each radix, code-point boundaries) of all "
+         "eight integer types + char, wchar_t, char8_t, char16_t, char32_t, bool (quick: a seed-dependent sixth; thorough: all); strings (const char*, ST::string, "
+         "std::string, string_view; empty, ASCII, multi-byte, invalid UTF-8) and booleans x alignment x pad x width around the length x precision {none, 0, 1, |t|-1, |t|, "
+         "100, '.', negative, whitespace/sign forms, wrapping numeral} x ignored flags; float/double x padding (rendering supplied by libc); seeded random strings "
+         "of 1-3 fields with 1-3 arguments, sequential and &N mixed, literals with brace escapes between. Every case through one of ST::format / ST::format(validation) "
+         "/ ST::format_latin_1 / a recording format_writer. non-trivial = the format string contains a brace",
+    exhaustive={"quick": False, "thorough": False},
+    assumptions=["readings chosen (DESIGN C11): zero-pad overrides an explicit alignment for integers; for text and booleans '0' only selects the pad character; "
+                 "precision is ignored for integers; the character class applies to integer and character arguments only; floating-point arguments are 'rendered by "
+                 "libc, then padded' (C13)",
+                 "the most negative int/long/long long (defect 12, C12) is not generated"],
+    trusted_base=["strtol(…, 10) is modelled (Fmt.strtol10) and validated against glibc by the correspondence"],
+)
+
 MANIFEST_TEXT = {
     "C10": dict(
         text="(theorems under construction) model of fetch_prefix / next_format / parse_format / apply_format over a reader that is undefined behind the terminating NUL; "
              "correspondence on every short string over a critical alphabet, grammar-directed random fields and every prefix of valid format strings under ASan",
         design_ref="DESIGN.md section 3, C10", note="see evidence",
         technique="Lean 4 proof over a hand model + differential correspondence under ASan/UBSan with abort/hang attribution"),
+    "C11": dict(
+        text="(theorems under construction) Spec.Render: field grammar over the byte list, argument selection, integer/text/char renderings and padding; "
+             "model of pad_size / format_numeric_string / format_string / format_char / format_type; correspondence over the flag cross product",
+        design_ref="DESIGN.md section 3, C11", note="see evidence",
+        technique="Lean 4 proof over a hand model + differential correspondence under ASan/UBSan"),
 }
